@@ -703,6 +703,7 @@ int _vnacal_new_add_common(vnacal_new_add_arguments_t vnaa)
 	goto out;
     }
     (void)memset((void *)vnmp, 0, sizeof(vnacal_new_measurement_t));
+    vnmp->vnm_vnp = vnp;	/* _vnacal_new_free_measurement needs it */
     if ((vnmp->vnm_m_matrix = full_m_matrix =
 		calloc(full_m_rows * full_m_columns,
 		    sizeof(double complex *))) == NULL) {
